@@ -123,6 +123,8 @@ def run(tier, replay=None):
             files.append(song.encode())
             files += gen_smf.mutate(rng, files[-1], 2)
         files += [gen_mus.gen_mus(rng), gen_mus.gen_xmi(rng)] + gen_mus.mutate(rng, gen_mus.gen_xmi(rng), 2) + gen_smf.tail_cases()[:6]
+        # formats with their own setup: a refused CMF (parsed completely first) and an EA RSXX song (locks the chip setup)
+        files += [gen_smf.gen_cmf(rng), gen_smf.gen_rsxx(rng), gen_smf.gen_rsxx(rng)]
         bank = synth_gen.test_bank(rng, nmel=1, nperc=1, blanks=0.1)[0]
         # every device id against the shortest framed SysEx messages of every manufacturer the synthesizer knows
         h = ["new 44100"]
@@ -142,6 +144,14 @@ def run(tier, replay=None):
                 if rng.random() < 0.15:
                     h.append("on 0 60 100"); h.append("off 0 60")
             h.append("close")
+            hs.append(h)
+        # songs that bring their own chip setup (EA RSXX locks it; a refused CMF must not): configuration calls made while it is in force, then rendering
+        for i in range(6 if tier == "quick" else 60):
+            h = ["new 44100", "bankdata " + bank.hex(), "opendata " + (gen_smf.gen_rsxx(rng) if i % 3 else gen_smf.gen_cmf(rng)).hex()]
+            for _ in range(8):
+                h.append(rng.choice(["numchips %d" % rng.choice([1, 3, 4, 100]), "lfo %d" % rng.choice([0, 1]), "lfofreq %d" % rng.choice([0, 5, 7]), "vm %d" % rng.choice([0, 1, 3]),
+                                     "runatpcm %d" % rng.choice([0, 1]), "logvol %d" % rng.choice([0, 1]), "gen 1024", "play 1024", "tick 1:-4 1:-10", "on 0 60 100", "scalemod 1", "softpan 1"]))
+            h += ["gen 2048", "play 2048", "reset", "gen 64", "close"]
             hs.append(h)
         for i in range(40 if tier == "quick" else 900):
             h = gen_history(rng, 60, files)
